@@ -274,12 +274,13 @@ func basicLatinNoSkips(c *Ctx, rule string) {
 	}
 	ic := params[3]
 	allowedGuard := func(gd string) bool {
+		neg := strings.HasPrefix(gd, "!")
 		gd = strings.TrimPrefix(strings.TrimSuffix(strings.TrimPrefix(gd, "!("), ")"), "!")
 		switch {
 		case gd == ic:
 			return true
 		case strings.HasSuffix(gd, "<128"):
-			return true
+			return !neg
 		case strings.HasPrefix(gd, "unicode.IsLower(") || strings.HasPrefix(gd, "unicode.IsUpper("):
 			return true
 		case strings.HasPrefix(gd, "unicode.Is("):
